@@ -458,6 +458,10 @@ func (t *transitiveClosure) addElement(
 		// to ensure all nested types are included.
 		for _, typeName := range typeNames {
 			typeInfo := imageIndex.ByName[typeName]
+			if _, isMethod := typeInfo.element.(*descriptorpb.MethodDescriptorProto); isMethod {
+				// Methods are added by their service, unless their input or output is excluded.
+				continue
+			}
 			if err := t.addElement(typeInfo.element, "", false, imageIndex, opts); err != nil {
 				return err
 			}
@@ -526,7 +530,7 @@ func (t *transitiveClosure) addElement(
 			inputMode, outputMode := t.elements[inputInfo.element], t.elements[outputInfo.element]
 			if inputMode == inclusionModeExcluded || outputMode == inclusionModeExcluded {
 				// The input or ouptut is excluded, so this method is also excluded.
-				t.elements[inputInfo.element] = inclusionModeExcluded
+				// It is left out of the closure and dropped when the service is remapped.
 				continue
 			}
 			if err := t.addElement(method, "", false, imageIndex, opts); err != nil {
